@@ -30,6 +30,9 @@ type Config struct {
 	Known            map[string]bool // known-finding ids
 	AllocBound       int             // explored bound for symbolic make sizes (elements)
 	AllocLimit       int             // sizes above this are reported as allocation out of proportion
+	PtrChoice        bool            // allow guarded pointer choices when merging
+	LazyFeas         bool            // do not query feasibility at branches that will be merged
+	Summarise        map[string]bool // pure functions evaluated per constant leaf of an ite-tree argument
 	Thorough         bool
 	Deadline         time.Time
 	OKSampleMax      int
@@ -163,6 +166,7 @@ type Exec struct {
 	lastFn        *ssa.Function
 	stoppedByPeer bool
 	allObjs       []*Object
+	summarising   int
 	okSamples     []OKSample
 }
 
@@ -482,6 +486,11 @@ func rtPanic(msg string, in ssa.Instruction) *PanicInfo {
 func (e *Exec) callFn(st *State, fn *ssa.Function, args []Value, bind []Value, callSite ssa.Instruction) (outs []Outcome) {
 	if h, ok := e.hooks[fn.String()]; ok {
 		fn = h
+	}
+	if e.cfg.Summarise[fn.String()] && e.summarising == 0 {
+		if r, ok := e.summarise(st, fn, args, bind, callSite); ok {
+			return r
+		}
 	}
 	if r, handled := e.intrinsic(st, fn, args, callSite); handled {
 		return r
@@ -982,10 +991,20 @@ func (e *Exec) runBlock(st *State, fr *Frame, blk *ssa.BasicBlock, idx int, stop
 					next = blk.Succs[1]
 					break
 				}
-				tOK := e.check(st, c) != "unsat"
-				fOK := true
-				if tOK {
-					fOK = e.check(st, e.ctx.Not(c)) != "unsat"
+				tOK, fOK := true, true
+				lazy := false
+				if e.cfg.LazyFeas && !loopControlling(fr.fn, fr.info, blk) {
+					// a mergeable diamond: both sides are executed and merged anyway; skipping the two
+					// feasibility queries is sound (an infeasible side only contributes under a false guard)
+					if j := fr.info.ipdom[blk.Index]; j != nil && e.policy(fr.fn) && e.regionOK(fr.fn, fr.info, blk, j) {
+						lazy = true
+					}
+				}
+				if !lazy {
+					tOK = e.check(st, c) != "unsat"
+					if tOK {
+						fOK = e.check(st, e.ctx.Not(c)) != "unsat"
+					}
 				}
 				if tOK && !fOK {
 					next = blk.Succs[0]
@@ -1284,22 +1303,47 @@ func (e *Exec) step1(st *State, fr *Frame, in ssa.Instruction, res *[]Outcome) b
 		st.heap[o] = copyAgg(e.zero(o.typ), st.epoch)
 		e.setReg(fr, x, &PtrV{Obj: o})
 	case *ssa.Store:
-		p := e.eval(st, fr, x.Addr).(*PtrV)
-		if isNilPtr(p) {
-			return e.require(st, fr, c.False, rtPanic("invalid memory address or nil pointer dereference", in), res)
+		alts, ok := e.ptrAlts(e.eval(st, fr, x.Addr))
+		if !ok {
+			panic(unsupported("store through a non-pointer value"))
 		}
-		e.store(st, p, e.eval(st, fr, x.Val))
+		val := e.eval(st, fr, x.Val)
+		nilG := c.False
+		for _, a := range alts {
+			if isNilPtr(a.P) {
+				nilG = c.Or(nilG, a.G)
+			}
+		}
+		if !e.require(st, fr, c.Not(nilG), rtPanic("invalid memory address or nil pointer dereference", in), res) {
+			return false
+		}
+		for _, a := range alts {
+			if !isNilPtr(a.P) {
+				e.storeG(st, a.P, val, a.G)
+			}
+		}
 	case *ssa.UnOp:
 		return e.unop(st, fr, x, res)
 	case *ssa.BinOp:
 		return e.binop(st, fr, x, res)
 	case *ssa.FieldAddr:
-		p := e.eval(st, fr, x.X).(*PtrV)
-		if isNilPtr(p) {
-			return e.require(st, fr, c.False, rtPanic("invalid memory address or nil pointer dereference", in), res)
+		alts, ok := e.ptrAlts(e.eval(st, fr, x.X))
+		if !ok {
+			panic(unsupported("field address of a non-pointer value"))
 		}
-		np := &PtrV{Obj: p.Obj, Path: append(append([]PathElem(nil), p.Path...), PathElem{Field: x.Field})}
-		e.setReg(fr, x, np)
+		nilG := c.False
+		var nalts []PtrAlt
+		for _, a := range alts {
+			if isNilPtr(a.P) {
+				nilG = c.Or(nilG, a.G)
+				continue
+			}
+			nalts = append(nalts, PtrAlt{a.G, &PtrV{Obj: a.P.Obj, Path: append(append([]PathElem(nil), a.P.Path...), PathElem{Field: x.Field})}})
+		}
+		if !e.require(st, fr, c.Not(nilG), rtPanic("invalid memory address or nil pointer dereference", in), res) {
+			return false
+		}
+		e.setReg(fr, x, e.mkChoice(nalts))
 	case *ssa.Field:
 		s := e.eval(st, fr, x.X).(*StructV)
 		e.setReg(fr, x, s.F[x.Field])
@@ -1430,11 +1474,36 @@ func (e *Exec) unop(st *State, fr *Frame, x *ssa.UnOp, res *[]Outcome) bool {
 	v := e.eval(st, fr, x.X)
 	switch x.Op {
 	case token.MUL: // load
-		p := v.(*PtrV)
-		if isNilPtr(p) {
-			return e.require(st, fr, c.False, rtPanic("invalid memory address or nil pointer dereference", x), res)
+		alts, ok := e.ptrAlts(v)
+		if !ok {
+			panic(unsupported("load through a non-pointer value"))
 		}
-		e.setReg(fr, x, e.load(st, p))
+		nilG := c.False
+		for _, a := range alts {
+			if isNilPtr(a.P) {
+				nilG = c.Or(nilG, a.G)
+			}
+		}
+		if !e.require(st, fr, c.Not(nilG), rtPanic("invalid memory address or nil pointer dereference", x), res) {
+			return false
+		}
+		var acc Value
+		for i := len(alts) - 1; i >= 0; i-- {
+			if isNilPtr(alts[i].P) {
+				continue
+			}
+			lv := e.load(st, alts[i].P)
+			if acc == nil {
+				acc = lv
+				continue
+			}
+			mv, ok := e.mergeValue(alts[i].G, lv, acc, 0)
+			if !ok {
+				panic(unsupported("load through a pointer choice whose targets cannot be merged"))
+			}
+			acc = mv
+		}
+		e.setReg(fr, x, acc)
 	case token.NOT:
 		e.setReg(fr, x, c.Not(v.(*Term)))
 	case token.SUB:
@@ -2192,4 +2261,62 @@ func (e *Exec) loadFork(st *State, fr *Frame, x *ssa.UnOp) (alts []contAlt, hand
 		alts = append(alts, contAlt{o.st, f})
 	}
 	return alts, true
+}
+
+// summarise implements finite-domain summarisation: a designated pure function whose (single symbolic)
+// argument is an ite-tree over constants is executed concretely once per distinct constant, and the
+// results are recombined along the tree (pointers become guarded choices).
+func (e *Exec) summarise(st *State, fn *ssa.Function, args []Value, bind []Value, callSite ssa.Instruction) ([]Outcome, bool) {
+	pos := -1
+	for i, a := range args {
+		if t, ok := a.(*Term); ok && !t.IsConst() {
+			if pos >= 0 || constLeaves(t, 4096) < 0 {
+				return nil, false
+			}
+			pos = i
+		}
+	}
+	if pos < 0 {
+		return nil, false
+	}
+	tree := args[pos].(*Term)
+	cache := map[*Term]Value{}
+	var failed bool
+	var eval func(t *Term) Value
+	eval = func(t *Term) Value {
+		if failed {
+			return nil
+		}
+		if t.IsConst() {
+			if v, ok := cache[t]; ok {
+				return v
+			}
+			na := append([]Value(nil), args...)
+			na[pos] = t
+			e.summarising++
+			outs := e.callFn(st, fn, na, bind, callSite)
+			e.summarising--
+			if len(outs) != 1 || outs[0].kind != OReturn || outs[0].st != st {
+				failed = true
+				return nil
+			}
+			cache[t] = outs[0].val
+			return outs[0].val
+		}
+		a, b := eval(t.args[1]), eval(t.args[2])
+		if failed {
+			return nil
+		}
+		m, ok := e.mergeValue(t.args[0], a, b, 0)
+		if !ok {
+			failed = true
+			return nil
+		}
+		return m
+	}
+	v := eval(tree)
+	if failed {
+		return nil, false
+	}
+	return []Outcome{{kind: OReturn, st: st, val: v}}, true
 }
